@@ -67,16 +67,28 @@ class TouchyError(RuntimeError):
     """Raised by the validator of a 'touchy' schema variant: a user hook failing with something that is not a ValueError."""
 
 
+class TouchyLookup(KeyError):
+    """A second kind of failing user hook: a KeyError subclass."""
+
+
+# which exception the validator of a 'touchy' variant raises for which offending value: every one of them means "this value is
+# refused" (pydantic turns AssertionError into a ValidationError itself; the others reach the caller of model_validate as they are)
+TOUCHY_RAISES = {"widget": TouchyError, "Alice": TouchyLookup, 42: TypeError, -17: TimeoutError, 9.5: AssertionError}
+
+
 def _touchy(cls, v):
     if isinstance(v, str):
-        if any(w in v for w in TOUCHY_WORDS):
-            raise TouchyError("validator does not like %r" % (v,))
+        for w in TOUCHY_WORDS:
+            if w in v:
+                raise TOUCHY_RAISES[w]("validator does not like %r" % (v,))
     elif isinstance(v, (int, float)) and not isinstance(v, bool) and v in TOUCHY_NUMBERS:
-        raise TouchyError("validator does not like %r" % (v,))
+        raise TOUCHY_RAISES[v]("validator does not like %r" % (v,))
     return v
 
 
 VARIANTS = ("described", "frozen", "touchy")
+# class names that are hostile to string formatting / regular expressions / line-oriented output (they appear in validation errors)
+HOSTILE_CLASS_NAMES = ("S{0}%s.*[(", "Rec\nord: NaN", "%(name)s {x}", "a|b)\\d+$", "{'k': None,}", "S\u2028\u201cq\u201d", "```json")
 
 
 def build_model(shape, twin=False):
@@ -85,7 +97,9 @@ def build_model(shape, twin=False):
     distinct class that also carries the first one's __name__/__qualname__ (distinct only by identity).
     Further distinct classes with the same fields and the same set of valid instances' values:
     `twin="described"` (field descriptions/titles and a docstring), `twin="frozen"` (immutable instances),
-    `twin="touchy"` (a field validator that returns every value unchanged but raises a RuntimeError subclass for some)."""
+    `twin="touchy"` (a field validator that returns every value unchanged but raises — RuntimeError / KeyError subclasses, TypeError,
+    TimeoutError, AssertionError, depending on the value — for some), `twin="hostile-name"` (a class name full of format / regex
+    metacharacters)."""
     key = (shape, "twin" if twin is True else twin) if twin else shape
     m = _MODEL_CACHE.get(key)
     if m is None:
@@ -100,7 +114,11 @@ def build_model(shape, twin=False):
             kw["__config__"] = ConfigDict(frozen=True)
         elif twin == "touchy" and shape:
             kw["__validators__"] = {"touchy": field_validator("*", mode="after")(classmethod(_touchy))}
-        m = create_model(build_model(shape).__name__ if twin == "namesake" else "S%d" % len(_MODEL_CACHE), **kw, **defs)
+        if twin == "hostile-name":
+            name = HOSTILE_CLASS_NAMES[sum(len(f[0]) + len(f[1]) for f in shape) % len(HOSTILE_CLASS_NAMES)]
+        else:
+            name = build_model(shape).__name__ if twin == "namesake" else "S%d" % len(_MODEL_CACHE)
+        m = create_model(name, **kw, **defs)
         _MODEL_CACHE[key] = m
     return m
 
@@ -474,16 +492,26 @@ ODD_PROSE = ["Sure! \ud83d here you go:", "note \udc80:", "\x00", "emoji cut \ud
              "see\x00below", "\ud83d"]
 
 
-def wrap(rng, text, decoy_valid_text, decoy_valid_value):
-    """0-2 syntactic wrappers around the rendered JSON text. Returns (raw, labels, decoy ground truths)."""
+FENCE_LABELS = ["JSON", "Json", "jSoN", "JSON ", "json5", "jsonc", "javascript", "JS", "python", "text", "json\t", "Json\r"]
+TAG_NAMES = ["JSON", "Json", "jSON", "json ", "JSON5", "output"]
+
+
+def wrap(rng, text, decoy_valid_text, decoy_valid_value, rng2=None):
+    """0-2 syntactic wrappers around the rendered JSON text. Returns (raw, labels, decoy ground truths).
+    `rng2` (its own stream): how the label of a fence / tag is spelled — upper / mixed case, another language name."""
     labels = []
+    spell = (lambda: rng2.random() < 0.45) if rng2 is not None else (lambda: False)
     grounds = []
     k = rng.choice([0, 0, 1, 1, 1, 2])
     for _ in range(k):
         op = rng.choice(["fence_json", "fence_bare", "fence_tight", "xml_tag", "prose", "prose", "decoy_invalid",
                          "decoy_valid", "pad", "truncate", "backticks", "odd_prose"])
         if op == "fence_json":
-            text = "```json" + rng.choice(["\n", " ", "\r\n", ""]) + text + rng.choice(["\n", "", " "]) + "```"
+            label = "json"
+            if spell():
+                label = rng2.choice(FENCE_LABELS)
+                op = "fence_label_variant"
+            text = "```" + label + rng.choice(["\n", " ", "\r\n", ""]) + text + rng.choice(["\n", "", " "]) + "```"
         elif op == "fence_bare":
             text = "```\n" + text + "\n```"
         elif op == "fence_tight":
@@ -491,7 +519,11 @@ def wrap(rng, text, decoy_valid_text, decoy_valid_value):
         elif op == "backticks":
             text = "`" + text + "`"
         elif op == "xml_tag":
-            text = "<json>" + rng.choice(["", "\n"]) + text + rng.choice(["", "\n"]) + "</json>"
+            tag = "json"
+            if spell():
+                tag = rng2.choice(TAG_NAMES)
+                op = "tag_name_variant"
+            text = "<" + tag + ">" + rng.choice(["", "\n"]) + text + rng.choice(["", "\n"]) + "</" + tag.strip() + ">"
         elif op == "prose":
             r = rng.random()
             if r < 0.4:
@@ -554,6 +586,79 @@ def bomb(rng, text):
     if kind == "big_int_alone":
         return digits, kind
     return '{"big": 1' + "0" * 400 + ".5e-399}" + "\n" + text, kind
+
+
+# ----------------------------------------------------------------------------- documents that are JSON only as a whole
+# fragments with unbalanced / non-JSON braces and brackets: inside a string value they defeat every "find a {...} / [...] in the
+# text" heuristic, so the text can only be read by parsing it as one document
+BRACE_WORDS = ["x}y", "{", "}", "50% {off}", "set {a} or b}", "}{", "use {x", "end}", "{a}", "a]b", "[", "]", "[ok", "1]", "{[", "]}",
+               "f(x) = {y}", "${HOME}", "{{tpl}}", "arr[i]"]
+_WD_NAMES = ["name", "age", "price", "ok", "tags", "note", "count", "ratio", "title", "flag", "items", "city"]
+
+
+def whole_document_case(rng):
+    """A flat schema, an instance whose string field(s) hold brace / bracket fragments, 0-3 type swaps of the documented coercion
+    table (number<->string, 'yes'/'no' for a bool, comma string for a list) and a clean rendering without wrappers.
+    Returns (shape, raw, grounds, labels, related texts)."""
+    nf = rng.randint(2, 5)
+    names = rng.sample(_WD_NAMES, nf)
+    fields = [(names[0], "str", 0)]
+    for nm in names[1:]:
+        fields.append((nm, rng.choice(["int", "float", "str", "bool", "list_int", "list_str", "bool", "list_str"]), rng.choice([0, 0, 0, 1, 2])))
+    rng.shuffle(fields)
+    shape = tuple(fields)
+    plain = lambda r: plain_string(r)  # noqa: E731
+    inst = gen_instance(rng, shape, 0.0, plain)
+    for f in shape:
+        if f[1] == "str" and inst.get(f[0]) is not None and (f[0] == names[0] or rng.random() < 0.4):
+            w = rng.choice(BRACE_WORDS)
+            inst[f[0]] = rng.choice([w, rng.choice(PLAIN_WORDS) + " " + w, w + " " + rng.choice(PLAIN_WORDS)])
+    if names[0] not in inst:
+        inst[names[0]] = rng.choice(BRACE_WORDS)
+    data = dict(inst)
+    labels = ["whole_document"]
+    for f in shape:
+        nm, t = f[0], f[1]
+        if data.get(nm) is None or rng.random() < 0.45:
+            continue
+        v = data[nm]
+        if t in ("int", "float") and not (isinstance(v, float) and (v != v or v in (float("inf"), float("-inf")))):
+            data[nm] = json.dumps(v) if isinstance(v, float) else str(v)
+            labels.append("num_to_str")
+        elif t == "bool":
+            data[nm] = rng.choice(["yes", "no", "true", "false", "1", "0", "Yes", "NO"])
+            labels.append("bool_to_str")
+        elif t == "list_int":
+            data[nm] = rng.choice(["1, 2, 3", "4,5", "7", " 10 ,20 "])
+            labels.append("list_to_str")
+        elif t == "list_str":
+            data[nm] = rng.choice(["a, b,c", "solo", "x , y", "red,green , blue"])
+            labels.append("list_to_str")
+        elif t == "str" and nm != names[0] and rng.random() < 0.5:
+            data[nm] = rng.choice([42, 9.5, 0, -3, 2.50])
+            labels.append("str_to_num")
+    st = random_style(rng, clean_p=1.0)
+    raw = write(data, st, rng)
+    if rng.random() < 0.2:
+        raw = rng.choice([" ", "\n", "\t", "  \n"]) + raw + rng.choice(["\n", " ", ""])
+    related = [write(inst, Style(), rng)]
+    other = dict(data)
+    other[names[0]] = rng.choice(BRACE_WORDS) + " again"
+    related.append(write(other, Style(), rng))
+    return shape, raw, [data, inst, other], tuple(labels), related
+
+
+def brace_in_string(v, depth=0):
+    """Does some string value of the decoded JSON value hold a brace or a bracket."""
+    if isinstance(v, str):
+        return any(ch in v for ch in "{}[]")
+    if depth > 4:
+        return False
+    if isinstance(v, dict):
+        return any(brace_in_string(x, depth + 1) for x in v.values())
+    if isinstance(v, list):
+        return any(brace_in_string(x, depth + 1) for x in v)
+    return False
 
 
 # ----------------------------------------------------------------------------- strategy orders
